@@ -4,6 +4,7 @@ import ScVerif.C18.Mode
 import ScVerif.C18.Seg64
 import ScVerif.C18.Mode64
 import ScVerif.C18.Shape
+import ScVerif.C18.ShapeOps
 import ScVerif.C18.F32
 /-! Driver handler for C18: parses one request line, runs the model, prints the canonical answer. -/
 namespace ScVerif.C18
@@ -133,6 +134,38 @@ def showOptSegS : Option SegS → String
   | none => "nil"
   | some s => showSeg s.seg ++ "/" ++ (match s.shape with | none => "n" | some f => toString f)
 
+def parseSegSs? (s : String) : Option (List SegS) :=
+  if s = "e" then some [] else (s.splitOn ",").mapM parseSegS?
+
+def parseSegSLists? (s : String) : Option (List (List SegS)) :=
+  if s = "none" then some [] else (s.splitOn ";").mapM parseSegSs?
+
+/-- `start@list` or `start@list@info` (`info` = the token for the non-timing fields, `0`/absent = none set). -/
+def parseModeS? (s : String) : Option ModeS :=
+  let build (st l : String) (info : Nat) : Option ModeS := do
+    let segs ← parseSegSs? l
+    if st = "-" then pure ⟨none, segs, info⟩
+    else do
+      let x ← parseInt? st
+      pure ⟨some x, segs, info⟩
+  match s.splitOn "@" with
+  | [st, l] => build st l 0
+  | [st, l, k] => do
+    let k ← parseInt? k
+    if k < 0 then none else build st l k.toNat
+  | _ => none
+
+def parseModeSs? (s : String) : Option (List ModeS) :=
+  if s = "none" then some [] else (s.splitOn ";").mapM parseModeS?
+
+def showSegSs (l : List SegS) : String :=
+  if l.isEmpty then "e" else ",".intercalate (l.map (fun s => showOptSegS (some s)))
+
+def showOptModeS : Option ModeS → String
+  | none => "nil"
+  | some m => (match m.start with | none => "-" | some s => toString s) ++ "@" ++ showSegSs m.segs ++
+      (if m.info = 0 then "" else "@" ++ toString m.info)
+
 def showOptMode : Option Mode → String
   | none => "nil"
   | some m => showMode m
@@ -183,6 +216,25 @@ def handleSeg (toks : List String) : Option String :=
     let s ← parseSegS? s
     let r := cutSegS d s
     pure (showOptSegS r.before ++ "|" ++ showOptSegS r.after ++ "|" ++ showBool r.outside)
+  | ["shifts", d, l] => do
+    let d ← parseInt? d
+    let l ← parseSegSs? l
+    pure (showSegSs (shiftS d l))
+  | ["sums", ls] => do
+    let ls ← parseSegSLists? ls
+    pure (showSegSs (sumS ls))
+  | ["mcuts", t, m] => do
+    let t ← parseInt? t
+    let m ← parseModeS? m
+    let r := modeCutS t m
+    pure (showOptModeS r.before ++ "|" ++ showOptModeS r.after ++ "|" ++ showBool r.outside)
+  | ["mshifts", d, m] => do
+    let d ← parseInt? d
+    let m ← parseModeS? m
+    pure (showOptModeS (some (modeShiftS d m)))
+  | ["msums", ms] => do
+    let ms ← parseModeSs? ms
+    pure (showOptModeS (modeSumS ms))
   | ["shift", d, l] => do
     let d ← parseInt? d
     let l ← parseSegs? l
